@@ -282,6 +282,8 @@ def shards(tier, seed):
     out.append(("literals",))
     out.append(("isolation",))
     out.append(("aliasing",))
+    for nt in nts:
+        out.append(("exponents", nt))
     for i in range(len(operand_forms(True, True))):
         out.append(("trees", "float", i))
         if tier != "quick":
@@ -314,7 +316,7 @@ def leafs(ureg, nt, names=None):
                 return float(text)
         return T(text)
 
-    units = names or {"m": "meter", "s": "second", OMEGA: "ohm"}
+    units = names or {"m": "meter", "s": "second", OMEGA: "ohm", "km": "kilometer", "min": "minute", "percent": "percent", "deg": "degree", "cm": "centimeter"}
 
     def leaf_name(name):
         if name not in units:
@@ -505,6 +507,44 @@ def run_trees(acc, nt, tier, idx):
         finally:
             signal.setitimer(signal.ITIMER_VIRTUAL, 0)
     acc.sample({"clause": "tree", "registry": nt, "first": first[0], "example": "6/\u03a9 (3)  ==  6 / \u03a9 * (3)"})
+
+
+# ----------------------------------------------------------------------------- exponents that are quantities
+
+EXP_BASES = ["1.001", "4", "m", "2 m", "(3 s)", "km"]
+EXP_EXPONENTS = ["(km / m)", "(min / s)", "(m / m)", "(s / min)", "(50 percent)", "(2 m / m)", "(cm / m)", "(200 cm / m)", "(2)", "(m)", "(2 km / m / 1000)", "(1 deg / deg)", "(0 km / m)"]
+
+
+def run_exponents(acc, nt):
+    """a ** b where b is itself a quantity expression: like Python on the quantities — a dimensionless exponent counts with its
+    VALUE (km / m is 1000, 50 percent is 0.5), a dimensional one is refused"""
+    ureg = regs.default(nt)
+    leaf_num, leaf_name = leafs(ureg, nt)
+    signal.signal(signal.SIGVTALRM, _alarm)
+    for b, e, (opw, oppy) in itertools.product(EXP_BASES, EXP_EXPONENTS, (("**", "**"), ("^", "**"))):
+        st = f"{b} {opw} {e}"
+        py = explicit_source(f"{b} {oppy} {e}")
+        signal.setitimer(signal.ITIMER_VIRTUAL, 20)
+        try:
+            ref = ref_eval(py, leaf_num, leaf_name)
+            if ref[0] in ("skip", "syntax"):
+                acc.count("exponent strings skipped (guard)")
+                continue
+            acc.ev()
+            acc.nt(("exponent", nt, st))
+            got = pint_eval(ureg.parse_expression, st)
+            compare(acc, "tree:exponent", "parse_expression", nt, {"python": py}, st, ref, got)
+        except Hang:
+            acc.violation(["tree", "parse_expression", "does-not-terminate", nt], {"string": st}, "termination", "timeout")
+        finally:
+            signal.setitimer(signal.ITIMER_VIRTUAL, 0)
+    acc.sample({"clause": "tree:exponent", "registry": nt, "string": "1.001 ** (km / m)", "python": "1.001 ** (km / m)  with km, m the unit quantities"})
+
+
+def explicit_source(s):
+    """implicit multiplication between a number and a name written out ('2 m' -> '2 * m', '50 percent' -> '50 * percent')"""
+    import re
+    return re.sub(r"(\d)\s+([A-Za-z(])", r"\1 * \2", s)
 
 
 # ----------------------------------------------------------------------------- preprocessors belong to one registry
@@ -779,6 +819,8 @@ def run_shard(acc, shard, tier, seed):
         run_isolation(acc)
     elif k == "aliasing":
         run_aliasing(acc)
+    elif k == "exponents":
+        run_exponents(acc, shard[1])
     else:
         raise core.HarnessError(str(shard))
 
